@@ -2,6 +2,7 @@ import GoSQLXModel.Driver.LoopsOp
 import GoSQLXModel.Driver.LspOp
 import GoSQLXModel.Driver.LintOp
 import GoSQLXModel.Driver.ScanOp
+import GoSQLXModel.Driver.ExtractOp
 /-! Dispatch table of the line-protocol driver. Each op parses its payload, runs the executable
     model and prints a canonical one-line answer. -/
 namespace GoSQLXModel.Driver
@@ -13,6 +14,7 @@ def dispatch (op payload : String) : String :=
   | "lsp" => lspOp payload
   | "lintfix" => lintfixOp payload
   | "scan" => scanOp payload
+  | "extract" => extractOp payload
   | _ => "bad-op"
 
 end GoSQLXModel.Driver
